@@ -1011,7 +1011,9 @@ pub fn gen_stdin(rng: &mut Rng, big: bool) -> Case {
         _ => rng.pick(UNFORMATTED).as_bytes().to_vec(),
     };
     let mut opts = Opts { num_threads: random_threads(rng), files: vec!["-".into()], ..Default::default() };
-    opts.check = rng.chance(30);
+    // the multi-megabyte inputs go through write mode only: an unoptimised line diff of 20 000
+    // changed lines takes the better part of a minute and tests the diff library, not the CLI
+    opts.check = rng.chance(30) && input.len() < 150_000;
     if opts.check {
         opts.output_format = rng.pick(&[None, Some("unified"), Some("json"), Some("summary")]).map(|s| s.to_string());
     } else if rng.chance(15) {
